@@ -58,11 +58,18 @@ func (ec *evalCtx) lookupIdent(name string) (Val, bool) {
 	if v, ok := ec.bound[name]; ok {
 		return v, true
 	}
+	if ec.local != nil {
+		// a loop-carried / local variable shadows the parameter of the same name;
+		// name0 is the parameter's entry value
+		if v, ok := ec.local(name); ok {
+			return v, true
+		}
+	}
 	if v, ok := ec.vars[name]; ok {
 		return v, true
 	}
-	if ec.local != nil {
-		if v, ok := ec.local(name); ok {
+	if len(name) > 1 && name[len(name)-1] == '0' {
+		if v, ok := ec.vars[name[:len(name)-1]]; ok {
 			return v, true
 		}
 	}
